@@ -118,7 +118,12 @@ def run(rep, tier, seed, tr_errors):
             before = json.dumps(d1.to_dict(), sort_keys=True, default=str)
             cbefore = circ.serialize(17) if circ is not None else None
             try:
+                # calculate_drt[bht] draws its initial values from numpy's global generator: both runs start from the same
+                # generator state, so that any difference between them is due to the values on the masked points
+                import numpy as np
+                np.random.seed(20260930 + n)
                 r1 = fn(d1, c=circ) if circ is not None else fn(d1)
+                np.random.seed(20260930 + n)
                 r2 = fn(d2, c=circ) if circ is not None else fn(d2)
             except Exception as e:  # noqa
                 stats.setdefault(name, {}).setdefault("raised:" + type(e).__name__, 0)
